@@ -1,5 +1,7 @@
 package scen
 
+import "fmt"
+
 // Alphabets of cardinality and pseudo-boolean constraints (complete within their bounds).
 
 // cardAlphabet: every constructor call of the cardinality front end over variables 1..n.
@@ -129,4 +131,85 @@ func cpCons(cs ...Con) []Con {
 		r[i] = cpCon(c)
 	}
 	return r
+}
+
+// enumMixedCatalogue yields a seeded catalogue of problems mixing clauses and cardinality
+// constraints (weighted: PB constraints with weights 1..3) over 5..10 variables, each seed followed
+// by ALL its one-edit neighbours (delete a constraint, flip a literal, degree +-1).
+func enumMixedCatalogue(seed int64, nseeds int, weighted bool, yield func(name string, p Prob) bool) bool {
+	g := &lcg{s: uint64(seed)*7919 + 17}
+	if weighted {
+		g.s += 991
+	}
+	tag := "MC"
+	if weighted {
+		tag = "MW"
+	}
+	for sd := 0; sd < nseeds; sd++ {
+		n := 5 + int(g.next()%6)
+		m := 3 + int(g.next()%uint64(2*n))
+		var cs []Con
+		for i := 0; i < m; i++ {
+			k := 2 + int(g.next()%4)
+			if k > n {
+				k = n
+			}
+			used := map[int]bool{}
+			var l []int
+			for len(l) < k {
+				v := 1 + int(g.next()%uint64(n))
+				if used[v] {
+					continue
+				}
+				used[v] = true
+				if g.next()&1 == 0 {
+					v = -v
+				}
+				l = append(l, v)
+			}
+			if weighted {
+				w := make([]int, k)
+				sum := 0
+				for x := range w {
+					w[x] = 1 + int(g.next()%3)
+					sum += w[x]
+				}
+				cs = append(cs, Con{T: "ge", L: l, W: w, K: 1 + int(g.next()%uint64(sum))})
+				continue
+			}
+			card := 1
+			if g.next()%3 != 0 {
+				card = 1 + int(g.next()%uint64(k))
+			}
+			cs = append(cs, Con{T: "atl", L: l, K: card})
+		}
+		name := fmt.Sprintf("%s/seed%d", tag, sd)
+		if !yield(name, Prob{Front: "pb", N: n, Cs: cpCons(cs...)}) {
+			return false
+		}
+		for i := range cs {
+			g2 := append(cpCons(cs[:i]...), cpCons(cs[i+1:]...)...)
+			if !yield(name+"-del", Prob{Front: "pb", N: n, Cs: g2}) {
+				return false
+			}
+			for dk := -1; dk <= 1; dk += 2 {
+				g2 = cpCons(cs...)
+				g2[i].K += dk
+				if g2[i].K < 1 || (!weighted && g2[i].K > len(g2[i].L)) {
+					continue
+				}
+				if !yield(name+"-deg", Prob{Front: "pb", N: n, Cs: g2}) {
+					return false
+				}
+			}
+			for j := range cs[i].L {
+				g2 = cpCons(cs...)
+				g2[i].L[j] = -g2[i].L[j]
+				if !yield(name+"-flip", Prob{Front: "pb", N: n, Cs: g2}) {
+					return false
+				}
+			}
+		}
+	}
+	return true
 }
